@@ -262,6 +262,7 @@ def main():
     if spec.get("search"):
         mod = importlib.import_module(f"search.{pid}")
         hints = [d.to_json() for d in disagreements]
+        core.set_search_budget((90 if tier == "quick" else 900) * (2 if broken else 1))
         findings, search_stats = mod.run(tier=tier, seed=seed, deep=bool(broken), hints=hints)
 
     known = load_known()
